@@ -306,6 +306,17 @@ def rule_normaliser(ctx, N, rid2="R8.2", rid3="R8.3"):
         r2.ok(site(N, other.ast), "everything else is returned unchanged (numbers keep Python equality: 1 == 1.0)")
     else:
         r2.fail("%s|default-case" % N.qual, site(N), "values that are neither booleans nor containers are not returned unchanged")
+    # every other way out of the normaliser must be one of the recognised shapes
+    for n in rets:
+        v = n.ast.value
+        shape_ok = (
+            (isinstance(v, ast.Name) and (v.id in sentinels or v.id == p)) or
+            (isinstance(v, (ast.ListComp, ast.DictComp)) and any(isinstance(c, ast.Call) and isinstance(c.func, ast.Name) and c.func.id == N.name for c in ast.walk(v)))
+        )
+        if not shape_ok:
+            r2.fail("%s|converts-value|%s" % (N.qual, norm(v)[:40]), site(N, n.ast),
+                    "the normaliser returns `%s`: values other than true/false must come back unchanged (a conversion such as float() "
+                    "collapses distinct integers beyond 2**53, so unequal numbers compare equal)" % norm(v)[:60])
     # identity tests, not equality
     eqtests = [t for t in cfg.live if t.kind == "test" and isinstance(t.ast, ast.Compare) and isinstance(t.ast.ops[0], (ast.Eq, ast.NotEq))]
     if eqtests:
